@@ -99,6 +99,63 @@ theorem serTx_legacy (t : Tx) (h : t.witness = none) : serTx t = serLegacy t := 
 theorem readHeader_serHeader (h : BlockHeader) (hw : h.WF) (r : Bytes) :
     readHeader (serHeader h ++ r) = some (h, r) := Btc.readHeader_serHeader h hw r
 
+/-- T4b: the header reader in the other direction, for EVERY byte string: what it accepts is exactly
+the serialisation of the header it returns (a well-formed one) followed by the rest it returns -
+the 80 bytes that are hashed are recovered field by field and re-serialised byte-identically. -/
+theorem serHeader_readHeader (bs : Bytes) (h : BlockHeader) (r : Bytes) (hr : readHeader bs = some (h, r)) :
+    serHeader h ++ r = bs ∧ h.WF := Btc.serHeader_readHeader bs h r hr
+
+/-- the reader accepts exactly the streams of at least 80 bytes -/
+theorem readHeader_isSome_iff (bs : Bytes) : (readHeader bs).isSome ↔ 80 ≤ bs.length := by
+  constructor
+  · intro h
+    obtain ⟨⟨hd, r⟩, e⟩ := Option.isSome_iff_exists.mp h
+    obtain ⟨e1, e2⟩ := Btc.serHeader_readHeader bs hd r e
+    have hl : (serHeader hd).length = 80 := by
+      obtain ⟨_, h2, h3, _, _, _⟩ := e2
+      simp [serHeader, h2, h3]
+    rw [← e1]; simp [hl]
+  · intro h
+    have e : bs = bs.take 80 ++ bs.drop 80 := (List.take_append_drop 80 bs).symm
+    let t := bs.take 80
+    have ht : t.length = 80 := by simp [t]; omega
+    -- the first 80 bytes are the serialisation of the header made of their slices
+    let hd : BlockHeader := ⟨leVal (t.take 4), (t.drop 4).take 32, (t.drop 36).take 32, leVal ((t.drop 68).take 4),
+      leVal ((t.drop 72).take 4), leVal ((t.drop 76).take 4)⟩
+    have l1 : (t.take 4).length = 4 := by simp; omega
+    have l2 : ((t.drop 68).take 4).length = 4 := by simp; omega
+    have l3 : ((t.drop 72).take 4).length = 4 := by simp; omega
+    have l4 : ((t.drop 76).take 4).length = 4 := by simp; omega
+    have hwf : hd.WF := by
+      refine ⟨?_, ?_, ?_, ?_, ?_, ?_⟩
+      · have := leVal_lt (t.take 4); rw [l1] at this; simpa [hd] using this
+      · simp [hd]; omega
+      · simp [hd]; omega
+      · have := leVal_lt ((t.drop 68).take 4); rw [l2] at this; simpa [hd] using this
+      · have := leVal_lt ((t.drop 72).take 4); rw [l3] at this; simpa [hd] using this
+      · have := leVal_lt ((t.drop 76).take 4); rw [l4] at this; simpa [hd] using this
+    have hser : serHeader hd = t := by
+      have a1 := leBytes_leVal (t.take 4); rw [l1] at a1
+      have a2 := leBytes_leVal ((t.drop 68).take 4); rw [l2] at a2
+      have a3 := leBytes_leVal ((t.drop 72).take 4); rw [l3] at a3
+      have a4 := leBytes_leVal ((t.drop 76).take 4); rw [l4] at a4
+      simp only [serHeader, hd, a1, a2, a3, a4]
+      have s1 : t = t.take 4 ++ t.drop 4 := (List.take_append_drop 4 t).symm
+      have s2 : t.drop 4 = (t.drop 4).take 32 ++ t.drop 36 := by
+        rw [show t.drop 36 = (t.drop 4).drop 32 by simp]; exact (List.take_append_drop 32 _).symm
+      have s3 : t.drop 36 = (t.drop 36).take 32 ++ t.drop 68 := by
+        rw [show t.drop 68 = (t.drop 36).drop 32 by simp]; exact (List.take_append_drop 32 _).symm
+      have s4 : t.drop 68 = (t.drop 68).take 4 ++ t.drop 72 := by
+        rw [show t.drop 72 = (t.drop 68).drop 4 by simp]; exact (List.take_append_drop 4 _).symm
+      have s5 : t.drop 72 = (t.drop 72).take 4 ++ t.drop 76 := by
+        rw [show t.drop 76 = (t.drop 72).drop 4 by simp]; exact (List.take_append_drop 4 _).symm
+      have s6 : t.drop 76 = (t.drop 76).take 4 := by
+        rw [List.take_of_length_le]; simp; omega
+      conv => rhs; rw [s1, s2, s3, s4, s5, s6]
+      simp [List.append_assoc]
+    rw [e, show bs.take 80 = t from rfl, ← hser, Btc.readHeader_serHeader hd hwf]
+    rfl
+
 theorem serHeader_length (h : BlockHeader) (hw : h.WF) : (serHeader h).length = 80 := by
   obtain ⟨_, h2, h3, _, _, _⟩ := hw
   simp [serHeader, h2, h3]
